@@ -1073,8 +1073,8 @@ func gen(r *Rng, tier string, emit func(Sx)) {
 		scale = 10
 	}
 	// race probes first: a batch of trivial calls whose timeout fires between calls
-	for i := 0; i < 24*scale; i++ {
-		emit(L(I(9), I(int64(r.Range(2000, 4000))), I(int64(r.Range(150, 2500)))))
+	for i := 0; i < 60*scale; i++ {
+		emit(L(I(9), I(int64(r.Range(800, 2000))), I(int64(r.Range(100, 1000)))))
 	}
 	// connections served by ServeCodec: sequences of singles and batches, no timeouts
 	for i := 0; i < 1200*scale; i++ {
@@ -1132,7 +1132,7 @@ func gen(r *Rng, tier string, emit func(Sx)) {
 func main() {
 	Main(Family{
 		ID: "C49",
-		Rule: "probes: batches of 2000-4000 trivial calls under a 0.15-2.5 ms HTTP timeout (all ids must be answered exactly once); " +
+		Rule: "probes: 60 batches of 800-2000 trivial calls under a 0.1-1 ms HTTP timeout (all ids must be answered exactly once); " +
 			"connections (ServeCodec, in-memory) carrying 1-3 messages, each a single entry or a batch of 0-14 entries drawn from " +
 			"calls (quick/failing/unknown method/large result/bad params/subscribe with buffered+late notifications), notifications, " +
 			"responses, *_subscription notifications, invalid requests (bad version, object/array id, no method, non-object), duplicate and null ids, " +
